@@ -207,3 +207,38 @@ from pyvc.core import REGISTRY
 REGISTRY['builders.StagedMap.__getitem__'].concrete(_conc_getitem); REGISTRY['builders.StagedMap.__getitem__'].scope(lambda tier, rng: [dict(where=w) for w in ('store', 'staging', 'none')])
 REGISTRY['builders.StagedMap.load.fresh_name'].concrete(_conc_load); REGISTRY['builders.StagedMap.load.fresh_name'].scope(lambda tier, rng: [dict(order=0), dict(order=1)])
 REGISTRY['builders.StagedMap._build_global.plain'].concrete(_conc_build); REGISTRY['builders.StagedMap._build_global.plain'].scope(lambda tier, rng: [dict(marker=False), dict(marker=True)])
+
+
+# ------------------------------------------------------------------ XsdGlobals.clear: a rebuild starts from empty derived maps (C09 "building twice")
+t = Target('xsd_globals.XsdGlobals.clear', ['C09', 'C10'], 'xmlschema/validators/xsd_globals.py', 'XsdGlobals.clear',
+           note='whatever the argument, clear() empties every derived map of the instance - the staged global maps, the substitution groups, the identity '
+                'constraints registry and the cache - on every path: each of these clear() calls is a top-level statement of the body that no return precedes; '
+                'nothing built by an earlier build() survives into the next one',
+           assumes=['syntactic obligation on the real AST (no solver): unconditional top-level calls execute on every path that reaches them; the clear() methods of the '
+                    'maps themselves are covered by the StagedMap contracts / are builtin dict.clear'])
+
+
+@t.symbolic
+def _(run):
+    import ast
+    ex = run.exec()
+    from pyvc.se import find_def
+    fn = find_def(find_def(ex.tree, 'XsdGlobals'), 'clear')
+    if fn is None: raise Unsupported('XsdGlobals.clear not found')
+    top = []
+    for s in fn.body:
+        if isinstance(s, ast.Return) or any(isinstance(n, ast.Return) for n in ast.walk(s)): break
+        if isinstance(s, ast.Expr) and isinstance(s.value, ast.Call): top.append(ast.unparse(s.value))
+    run.paths = 1
+    for cell in ('global_maps', 'substitution_groups', 'identities', 'cache'):
+        run.vc(f'{cell}-cleared-on-every-path', z3.BoolVal(True), [], z3.BoolVal(f'self.{cell}.clear()' in top), 'clear')
+    # the derived maps are exactly those the constructor creates besides the schema registry: a map added later must be cleared as well
+    init = find_def(find_def(ex.tree, 'XsdGlobals'), '__init__')
+    created = sorted({ast.unparse(t_)[5:] for s in ast.walk(init) if isinstance(s, (ast.Assign, ast.AnnAssign)) for t_ in (s.targets if isinstance(s, ast.Assign) else [s.target])
+                      if ast.unparse(t_).startswith('self.') and s.value is not None and isinstance(s.value, (ast.Dict, ast.Call, ast.Set, ast.List))
+                      and (isinstance(s.value, ast.Dict) or ast.unparse(s.value.func if isinstance(s.value, ast.Call) else s.value) in ('dict', 'set', 'GlobalMaps', 'SchemaCache', 'defaultdict'))})
+    cleared = {c[5:-8] for c in top if c.startswith('self.') and c.endswith('.clear()')}
+    conditional = {ast.unparse(n.func)[5:-6] for s in fn.body if not isinstance(s, ast.Expr) for n in ast.walk(s)
+                   if isinstance(n, ast.Call) and ast.unparse(n.func).startswith('self.') and ast.unparse(n.func).endswith('.clear')}
+    run.vc('every-container-created-by-init-is-cleared-or-schema-registry', z3.BoolVal(True), [],
+           z3.BoolVal(all(c in cleared or c in conditional and c in ('_schemas', 'namespaces') for c in created)), 'init=' + ','.join(created))
